@@ -1,9 +1,10 @@
 """C03 -- serializable dataclasses round-trip for every supported shape.  Spec: spec/data/TypeGrammar.tla (Mode = "dc")."""
 import copy
 import dataclasses
+import datetime as dt
 import warnings
-from dataclasses import field, make_dataclass
-from typing import Annotated
+from dataclasses import InitVar, field, make_dataclass
+from typing import Annotated, ClassVar
 
 from vf import table
 from vf.core import Ctx
@@ -29,8 +30,10 @@ META = {
 }
 
 INV = ["ShapeApplies", "NoValueNoReject", "ClassesPartition", "SetsHoldHashables", "ScopeRespected"]
-ALL_CTORS = ["opt", "list", "set", "map_str", "map_int", "map_bytes", "map_enum", "dc"]
+ALL_CTORS = ["opt", "list", "set", "map_str", "map_int", "map_bytes", "map_enum", "dc", "dcb"]
+ALL_VARIANTS = ["plain", "default", "transient", "inherited", "extras", "slots"]
 ALL_LEAVES = ["int", "i8", "i16", "i32", "u8", "u16", "u32", "u64", "float", "f32", "str", "bytes", "bool", "enum", "senum", "menum", "ienum", "dec",
+              "nt_int", "nt_str", "nt_bytes", "nt_enum", "nt_dc", "ann_int", "dc0", "dct", "custom", "f16", "ts_ns",
               "ts_us", "ts_tz", "date", "time", "dur", "schema", "batch", "tuple", "mset"]
 
 
@@ -51,15 +54,25 @@ def build_class(term: tuple, variant: str, state: bool):
     try:
         ann = T.annotation(term)
         fields: list = [("v", ann)]
+        ns: dict = {}
+        bases: tuple = (ArrowSerializableDataclass,)
+        kw: dict = {}
         if variant == "transient":
             fields.append(("cache", Annotated[dict, Transient()], field(default_factory=dict)))
+        elif variant == "extras":      # pseudo-fields and a property next to the real field
+            fields += [("K", ClassVar[int], 5), ("seed", InitVar[int], 0)]
+            ns["double"] = property(lambda self: [self.v, self.v])
+        elif variant == "inherited":   # child of a serializable dataclass whose schema / plan caches are already filled
+            bases = (T.WarmParent,)
+        elif variant == "slots":
+            kw["slots"] = True
         name = "C_" + "_".join(term) + "_" + variant + ("_st" if state else "")
         if state:
             from vgi_rpc.rpc import ProducerState
 
             cls = make_dataclass(name, fields, bases=(ProducerState,), namespace={"produce": lambda self, out, ctx: None})
         else:
-            cls = make_dataclass(name, fields, bases=(ArrowSerializableDataclass,), frozen=True)
+            cls = make_dataclass(name, fields, bases=bases, namespace=ns, frozen=True, **kw)
         _ = cls.ARROW_SCHEMA
         res = (cls, None)
     except Exception as e:  # noqa: BLE001
@@ -110,7 +123,7 @@ def run(ctx: Ctx) -> None:
     deep = ["int", "u64", "f32", "str", "enum", "dec", "schema", "batch"] if quick else ALL_LEAVES[:-2]
     deep3 = ["int", "enum", "str", "f32"] if quick else ["int", "enum", "str", "f32", "bytes", "dec", "schema"]
     runs = [("depth2", {"Mode": "dc", "MaxDepth": 2, "Ctors": sset(ALL_CTORS), "Leaves": sset(ALL_LEAVES), "DeepLeaves": sset(deep),
-                        "SigLeaves": sset([]), "Variants": sset(["plain", "default", "transient"])}),
+                        "SigLeaves": sset([]), "Variants": sset(ALL_VARIANTS)}),
             ("depth3", {"Mode": "dc", "MaxDepth": 3, "Ctors": sset(["opt", "list", "set", "map_str", "dc"]),
                         "Leaves": sset(deep3), "DeepLeaves": sset(deep3), "SigLeaves": sset([]), "Variants": sset(["plain"])})]
     seen_cases = set()
@@ -171,6 +184,10 @@ def run(ctx: Ctx) -> None:
                                 insts.append((dcls, dcls(v=other), other))  # explicit value different from the default
                         elif c["variant"] == "transient":
                             insts = [(cls, cls(v=v, cache={"k": 1}), v)]
+                        elif c["variant"] == "inherited":
+                            insts = [(cls, cls(p=11, v=v), v)]
+                        elif c["variant"] == "extras":
+                            insts = [(cls, cls(v=v, seed=7), v)]
                         else:
                             insts = [(cls, cls(v=v), v)]
                     except Exception as e:  # noqa: BLE001  (constructing the instance is harness work)
@@ -183,6 +200,10 @@ def run(ctx: Ctx) -> None:
                             ok = type(back) is k_cls and T.same(back.v, want)
                             if ok and c["variant"] == "transient":
                                 ok = back.cache == {}
+                            if ok and c["variant"] == "inherited":
+                                ok = back.p == 11 and [f.name for f in dataclasses.fields(back)] == ["p", "v"]
+                            if ok and c["variant"] == "extras":
+                                ok = type(back).K == 5 and T.same(back.double, [want, want])
                             if not ok:
                                 outcome = "changed"
                                 detail = {"sent": T.show(inst), "got": T.show(back)}
@@ -231,7 +252,10 @@ def _in_range(leaf: str) -> list:
     table_ = {"float": ["typical", "zero", "negzero", "nan", "inf", "max", "denorm"], "f32": ["typical", "zero", "negzero", "nan", "inf", "max", "denorm"],
               "str": ["ascii", "empty", "nonascii", "nul"], "bytes": ["nul_ff", "empty", "long"], "bool": ["true", "false"],
               "enum": ["value_ne_name", "value_is_other_name", "int_valued"], "senum": ["value_ne_name", "value_is_other_name"],
-              "menum": ["value_ne_name", "value_is_other_name"], "ienum": ["int_valued"], "dec": ["neg", "zero", "max_digits"],
+              "menum": ["value_ne_name", "value_is_other_name"], "ienum": ["int_valued"],
+              "nt_enum": ["value_ne_name", "value_is_other_name", "int_valued"], "nt_dc": ["instance"], "dc0": ["instance"], "dct": ["instance"],
+              "custom": ["nul_ff", "empty"], "nt_str": ["ascii", "empty", "nonascii", "nul"], "nt_bytes": ["nul_ff", "empty", "long"],
+              "f16": ["typical", "zero", "negzero", "nan", "inf", "max"], "ts_ns": ["micro", "epoch"], "dec": ["neg", "zero", "max_digits"],
               "ts_us": ["micro", "epoch", "min", "max"], "ts_tz": ["utc", "offset"], "date": ["epoch", "min", "max"],
               "time": ["max", "midnight"], "dur": ["neg", "zero", "big"], "schema": ["with_metadata", "empty", "nested"],
               "batch": ["rows", "zero_rows", "with_metadata"], "tuple": ["any"], "mset": ["any"]}
@@ -241,13 +265,15 @@ def _in_range(leaf: str) -> list:
 
 
 def _nearest_ok(term, sent, got) -> bool:
-    """changed value is exactly the IEEE float32 image of what was sent (only meaningful for f32 leaves)."""
-    if term[-1] != "f32":
+    """the changed value is exactly the admissible image of what was sent (T.lossy_image: IEEE nearest float of the
+    declared width / naive-aware coercion), applied leaf-wise through containers and dataclasses"""
+    leaf = term[-1]
+    if leaf not in ("f32", "f16", "ts_us", "ts_tz"):
         return False
 
     def img(x):
-        if isinstance(x, float):
-            return T.f32_nearest(x)
+        if isinstance(x, (float, dt.datetime)):
+            return T.lossy_image(leaf, x)
         if isinstance(x, list):
             return [img(y) for y in x]
         if isinstance(x, frozenset):
@@ -263,7 +289,7 @@ def _nearest_ok(term, sent, got) -> bool:
         return False
 
 
-NEEDS_CONVERSION = {"enum", "senum", "menum", "ienum", "dc", "set", "map_str", "map_int", "map_bytes", "map_enum", "schema", "batch"}
+NEEDS_CONVERSION = {"enum", "senum", "menum", "ienum", "nt_enum", "nt_dc", "dc0", "dct", "custom", "dcb", "dc", "set", "map_str", "map_int", "map_bytes", "map_enum", "schema", "batch"}
 
 
 def family(term) -> str:
@@ -280,6 +306,8 @@ def family(term) -> str:
                 tags.add("enum_key")
             if below & NEEDS_CONVERSION:
                 tags.add("under_map")
+    if t[-1] in ("nt_enum", "nt_dc"):
+        tags.add("newtype_over_converted")
     return "+".join(sorted(tags)) or "plain"
 
 
